@@ -126,6 +126,11 @@ func c18Addr(c *harness.Check, cs addrCase) string {
 		}
 		for n, content := range expected {
 			out, ferr := tpl.String(n, nil)
+			if strings.HasPrefix(content, "<nest>") {
+				// component files that use component files (chains, cycles, themselves): loaded and
+				// registered like any file; what rendering them gives is not this property's matter
+				continue
+			}
 			if strings.HasPrefix(content, "@use(\"zbase\")") {
 				content = "<html>home</html>" // the one page of these trees that uses a layout
 			}
@@ -191,7 +196,7 @@ func c18Addr(c *harness.Check, cs addrCase) string {
 
 func TestC18_Addressing(t *testing.T) {
 	c := harness.New(t, "C18", "addressing",
-		"directory trees over names {a, b, idx} at depths {., sub, sub/deep, d<ext>/} with decoys whose names merely contain the extension (a<ext>.bak, a<ext>ig, n.txt inside a directory named x<ext>, a<ext><ext>, the bare extension) and garbage in decoys; template directory nested one or two levels and spelled t, t/, ./t, x/../t, t//, /t, t/sub/.., t/sub/../, t/., x/./../t (directory names may begin or end with a dot); extensions .tw, .tw.html, .html; one case in six leaves the directory, the extension, both or the whole configuration out (the documented defaults \"templates\" and \".tw.html\" apply). Oracle: the registered names (hook VerifNames) are exactly {relative path minus extension of every file whose name ends in the extension}; each renders its own content; decoys, unknown names and layouts (files with reserves) are reported as not found; EvaluateFile(path) == EvaluateString(content). Non-trivial: a nested directory, a decoy and a non-canonical spelling or a defaulted configuration. Distinct by hash.")
+		"directory trees over names {a, b, idx} at depths {., sub, sub/deep, d<ext>/} with decoys whose names merely contain the extension (a<ext>.bak, a<ext>ig, n.txt inside a directory named x<ext>, a<ext><ext>, the bare extension) and garbage in decoys; template directory nested one or two levels and spelled t, t/, ./t, x/../t, t//, /t, t/sub/.., t/sub/../, t/., x/./../t (directory names may begin or end with a dot); extensions .tw, .tw.html, .html; one case in six leaves the directory, the extension, both or the whole configuration out (the documented defaults \"templates\" and \".tw.html\" apply). Oracle: the registered names (hook VerifNames) are exactly {relative path minus extension of every file whose name ends in the extension}; each renders its own content (files that use each other as components - chains, cycles, themselves - only have to load and be registered); decoys, unknown names and layouts (files with reserves) are reported as not found; EvaluateFile(path) == EvaluateString(content). Non-trivial: a nested directory, a decoy and a non-canonical spelling or a defaulted configuration. Distinct by hash.")
 	defer c.Finish()
 	runRapid(t, c, 2000, 24000, func(rt *rapid.T) {
 		ext := rapid.SampledFrom([]string{".tw", ".tw.html", ".html"}).Draw(rt, "ext")
@@ -271,6 +276,29 @@ func TestC18_Addressing(t *testing.T) {
 			// a valid tree loads whatever the spelling of the relative paths inside it
 			tr[realDir+"/sub/zcomp"+ext] = tree.Entry{Content: "<zc>"}
 			tr[realDir+"/zuser"+ext] = tree.Entry{Content: "@component(\"sub/zcomp\");@component(\"/sub/zcomp\");@component(\"./sub/zcomp\");@component(\"sub//zcomp\");@component(\"sub/../sub/zcomp\");"}
+		}
+		if rapid.IntRange(0, 2).Draw(rt, "nestedComponents") == 0 {
+			// files that use each other as components - in a chain, in a cycle of two or three, or
+			// themselves - are files of the directory like any other: the directory loads and registers them
+			switch rapid.SampledFrom([]string{"chain", "cycle2", "cycle3", "self", "cycle-and-page"}).Draw(rt, "nestShape") {
+			case "chain":
+				tr[realDir+"/zn1"+ext] = tree.Entry{Content: "<nest>1@component(\"zn2\");"}
+				tr[realDir+"/zn2"+ext] = tree.Entry{Content: "<nest>2@component(\"sub/zn3\");"}
+				tr[realDir+"/sub/zn3"+ext] = tree.Entry{Content: "<nest>3"}
+			case "cycle2":
+				tr[realDir+"/zn1"+ext] = tree.Entry{Content: "<nest>1@component(\"zn2\");"}
+				tr[realDir+"/zn2"+ext] = tree.Entry{Content: "<nest>2@component(\"zn1\");"}
+			case "cycle3":
+				tr[realDir+"/zn1"+ext] = tree.Entry{Content: "<nest>1@component(\"sub/zn2\");"}
+				tr[realDir+"/sub/zn2"+ext] = tree.Entry{Content: "<nest>2@component(\"zn3\");"}
+				tr[realDir+"/zn3"+ext] = tree.Entry{Content: "<nest>3@component(\"zn1\");"}
+			case "self":
+				tr[realDir+"/zn1"+ext] = tree.Entry{Content: "<nest>1@component(\"zn1\");"}
+			default:
+				tr[realDir+"/an0"+ext] = tree.Entry{Content: "<nest>0@component(\"components/zleft\");"}
+				tr[realDir+"/components/zleft"+ext] = tree.Entry{Content: "<nest>L@component(\"~zright\");"}
+				tr[realDir+"/components/zright"+ext] = tree.Entry{Content: "<nest>R@component(\"~zleft\");"}
+			}
 		}
 		if rapid.IntRange(0, 2).Draw(rt, "plainFileAsLayout") == 0 {
 			// a file without reserves stays a page of its own, also when another page names it in @use
